@@ -225,7 +225,7 @@ def known_class(kid, case, obs, prof):
     return bool(f) and f in L.parse_spec(case)['flags']
 
 
-LEVEL_TEXT = ('END TO END ON BYTES for the classic layout: C03_bytes_classic (coq/Properties/C03b.v, built by this check): for every document and classic layout, load_bytes (render_classic d l) — the loader model applied to the abstraction that the byte-level parser models compute from the bytes — loads exactly the document; load_bytes is compared with the real parse_data on classic files given as bytes only (family C03B). ' + 'Coq theorems over the abstract loader model: for every abstract file that stores a document in any layout (one '
+LEVEL_TEXT = ('END TO END ON BYTES (also C03_bytes_xrefstm / _objstm / _hybrid for unfiltered xref streams, object streams, hybrid files, and the file-to-file corollaries C03_bytes_representation_independent and C03_bytes_compression_transparent) for the classic layout: C03_bytes_classic (coq/Properties/C03b.v, built by this check): for every document and classic layout, load_bytes (render_classic d l) — the loader model applied to the abstraction that the byte-level parser models compute from the bytes — loads exactly the document; load_bytes is compared with the real parse_data on classic files given as bytes only (family C03B). ' + 'Coq theorems over the abstract loader model: for every abstract file that stores a document in any layout (one '
               'section: table / xref stream / hybrid; objects in the file or in object streams; /Length direct or a backward/'
               'forward reference to an in-file integer) load answers Loaded with exactly the document\'s objects, their values, '
               'the trailer\'s root and nothing else but the layout\'s containers (C03_load, satisfiability shown); an entry whose '
